@@ -105,6 +105,18 @@ func reachCases(thorough bool) (cases []clirig.ReachCase, fam map[string]int, bo
 				}
 			}
 		}
+		// F4: two CONCURRENT RefreshMetadata calls after a healthy NewClient (both pick the same first candidate; its
+		// failure is handled twice)
+		for n := 2; n <= 3; n++ {
+			for known := 0; known <= 1; known++ {
+				for _, p := range perms(n) {
+					for _, w := range words(alpha, n+known) {
+						cases = append(cases, clirig.ReachCase{Seeds: p, Known: known, RM: rm, New: strings.Repeat("A", n), Refresh: []string{w}, Pick: picks(known)[0], Conc: 2})
+						fam["refresh-concurrent"]++
+					}
+				}
+			}
+		}
 		// F3: two successive RefreshMetadata calls with independent behaviours (dead-seed bookkeeping carries over)
 		for n := 1; n <= maxSeeds2; n++ {
 			al := alpha2
